@@ -11,9 +11,13 @@ pub fn absolute<T: AsRef<Path>>(path: T) -> Result<PathBuf, E> {
     for comp in path.components() {
         match comp {
             C::CurDir => (),
-            C::ParentDir => {
-                out.pop().ok_or(E::CannotBeExported(ERROR_MESSAGE))?;
-            }
+            // `..` can only take back a directory name, not the root (or prefix) of the path
+            C::ParentDir => match out.last() {
+                Some(C::Normal(_)) => {
+                    out.pop();
+                }
+                _ => return Err(E::CannotBeExported(ERROR_MESSAGE)),
+            },
             comp => out.push(comp),
         }
     }
